@@ -91,21 +91,27 @@ def run_arena(prop, tier, seed, workdir, families=None):
     nontrivial = set()
     samples = []
     scopes = {}
-    for fam in fams:
+    def one(fam):
         d = ARENA_FAMILIES[fam]
         scope = dict(d[tier])
         scope.setdefault("QA", 1)
         scope["Fns"] = set(d["fns"])
-        cases, st = arena.gen_cases(fam, scope, workdir)
+        cases, st = arena.gen_cases(fam, scope, workdir, workers=8)
+        # P2: seeded calls beyond the TLC scope (sizes across the 0x20 memset switch, word-unrolled primitives), same judge
+        extra = p2.cases(fam, seed, tier)
+        cases = cases + extra
+        n, bad, meta = arena.execute_and_judge(cases, workdir, flavours=d.get("flavours", ("slack", "noslack")))
+        return fam, scope, cases, st, len(extra), n, bad
+
+    # the families are independent of each other: a few at a time (each phase of one - TLC, the executor, the judging JVMs - is itself parallel)
+    from concurrent.futures import ThreadPoolExecutor
+    with ThreadPoolExecutor(max_workers=3 if tier == "quick" else 2) as ex:
+        results = list(ex.map(one, fams))
+    for fam, scope, cases, st, p2count, n, bad in results:
         scopes[fam] = {k: (sorted(v) if isinstance(v, set) else v) for k, v in scope.items()}
         states += st["distinct"]
         transitions += st["states"]
-        ncases += len(cases)
-        # P2: seeded calls beyond the TLC scope (sizes across the 0x20 memset switch, word-unrolled primitives), same judge
-        extra = p2.cases(fam, seed, tier)
-        p2count = len(extra)
-        cases = cases + extra
-        n, bad, meta = arena.execute_and_judge(cases, workdir, flavours=d.get("flavours", ("slack", "noslack")))
+        ncases += len(cases) - p2count
         total_events += n
         p2total += p2count
         for ci, c in enumerate(cases):
